@@ -53,7 +53,7 @@ FAULT_KINDS = ["ctrl:always", "ctrl:after", "ctrl:window", "ctrl:at_zero",
 PROBES = ["outcome:full", "outcome:shortened", "outcome:failure",
           "shortened_before_fault_time", "first_row_controller_bad",
           "window_narrower_than_grid", "multi_leg", "bundled_system",
-          "closed_form_checked", "bad:nan", "bad:inf", "bad:-inf", "bad:1e50",
+          "closed_form_checked", "several_collectors", "bad:nan", "bad:inf", "bad:-inf", "bad:1e50",
           "bad:-1e11", "bad:1e10", "bad:-1e10"]
 HARD_CAP_S = 90.0
 CHUNK = 8
@@ -330,16 +330,24 @@ def execute(doc: dict) -> dict:
     if len(legs) > 1:
         core.bump(res["probes"], "multi_leg")
     collected = []
+    second = []
 
     def collector(index, ode, j, t):
         collected.append((index, ode, j, t))
 
+    def collector2(index, ode, j, t):
+        second.append((index, id(ode), j, t, len(collected)))
+    # multi_run_ode takes one collector or several; with several, each must
+    # receive every result, in order, right after the first one got it
+    many = (len(doc["legs"]) + int(doc["test_steps"])) % 2 == 1
+
     tsteps, rsteps = int(doc["test_steps"]), int(doc["train_steps"])
     ttime, rtime = float(doc["test_time"]), float(doc["train_time"])
     try:
-        multi_run_ode(test_starts, train_starts, collector, equations,
-                      controller, params, cd, tsteps, ttime, rsteps, rtime,
-                      use, gamma)
+        multi_run_ode(test_starts, train_starts,
+                      (collector, collector2) if many else collector,
+                      equations, controller, params, cd, tsteps, ttime,
+                      rsteps, rtime, use, gamma)
     except _TooManyCalls:
         if "bundled" in doc:
             # nonlinear bundled systems can be legally stiff: undecided
@@ -354,6 +362,16 @@ def execute(doc: dict) -> dict:
         core.violation(res, "run_ode-raised",
                        f"{type(exc).__name__}: {exc} (fault={fault})")
         return res
+    if many:
+        core.bump(res["probes"], "several_collectors")
+        if [(q[0], q[1], q[2], q[3], q[4]) for q in second] != [
+                (c[0], id(c[1]), c[2], c[3], k + 1)
+                for k, c in enumerate(collected)]:
+            core.violation(res, "collector-order",
+                           f"second collector saw {len(second)} results "
+                           f"(first: {len(collected)}) or in another order / "
+                           f"with other values")
+            return res
     expected = [(s, tsteps, ttime) for s in test_starts] \
         + [(s, rsteps, rtime) for s in train_starts]
     if [c[0] for c in collected] != list(range(len(expected))):
